@@ -65,11 +65,20 @@ pub struct ChunkReader<'a> {
     pub pos: usize,
     pub chunk: usize,
     pub eof_at: Option<usize>,
+    /// set when the buffer handed to read() holds a byte with the top bit set: the ring op lists
+    /// only ever write 7-bit data, so such a byte was never written by anybody (fresh heap memory
+    /// as the checking allocator / ASan leave it). Looking at the target buffer is also what makes
+    /// Miri see a never-written byte handed to a reader.
+    pub foreign: Option<&'a std::cell::Cell<bool>>,
 }
 impl ruzstd::io::Read for ChunkReader<'_> {
     fn read(&mut self, buf: &mut [u8]) -> std::io::Result<usize> {
         let limit = self.eof_at.unwrap_or(self.data.len()).min(self.data.len());
         let n = buf.len().min(self.chunk).min(limit.saturating_sub(self.pos));
+        let high = buf.iter().fold(0u8, |a, b| a | *b) & 0x80 != 0;
+        if let (true, Some(f)) = (high, self.foreign) {
+            f.set(true);
+        }
         buf[..n].copy_from_slice(&self.data[self.pos..self.pos + n]);
         self.pos += n;
         Ok(n)
@@ -97,6 +106,7 @@ pub const F_PANIC: u8 = 5;
 pub const F_READER_ERR: u8 = 6;
 pub const F_GET: u8 = 7;
 pub const F_CAP_SHRANK: u8 = 8;
+pub const F_FOREIGN: u8 = 9;
 
 #[derive(Default, Clone, Copy)]
 pub struct RbStats {
@@ -177,7 +187,7 @@ pub fn exec_ring(ops: &[Op], cap_limit: usize, stats: &mut RbStats) -> Option<(u
                 }
                 Op::Extend(s, seed) => {
                     let n = resolve(*s, &rb, cap_limit);
-                    let data: Vec<u8> = (0..n).map(|k| (gen.next() as u8) ^ seed.wrapping_add(k as u8)).collect();
+                    let data: Vec<u8> = (0..n).map(|k| ((gen.next() as u8) ^ seed.wrapping_add(k as u8)) & 0x7F).collect();
                     if n == rb.free() && n > 0 {
                         stats.exact_fill = true;
                     }
@@ -186,21 +196,26 @@ pub fn exec_ring(ops: &[Op], cap_limit: usize, stats: &mut RbStats) -> Option<(u
                 }
                 Op::Fill(b, s) => {
                     let n = resolve(*s, &rb, cap_limit);
-                    rb.extend_and_fill(*b, n);
-                    model.extend(std::iter::repeat(*b).take(n));
+                    rb.extend_and_fill(*b & 0x7F, n);
+                    model.extend(std::iter::repeat(*b & 0x7F).take(n));
                 }
                 Op::FromReader(s, chunk, eof) => {
                     let n = resolve(*s, &rb, cap_limit);
-                    let data: Vec<u8> = (0..n).map(|_| gen.next() as u8).collect();
+                    let data: Vec<u8> = (0..n).map(|_| gen.next() as u8 & 0x7F).collect();
                     let eof_at = eof.map(|e| (e as usize).min(n));
                     let short = eof_at.map(|e| e < n).unwrap_or(false);
+                    let foreign = std::cell::Cell::new(false);
                     let rd = ChunkReader {
                         data: &data,
                         pos: 0,
                         chunk: *chunk as usize,
                         eof_at,
+                        foreign: Some(&foreign),
                     };
                     let res = rb.extend_from_reader(rd, n);
+                    if foreign.get() {
+                        return Some((i as u16, F_FOREIGN));
+                    }
                     if short {
                         stats.reader_eof = true;
                         // a failed read must leave the queue unchanged
@@ -279,8 +294,8 @@ pub fn exec_ring(ops: &[Op], cap_limit: usize, stats: &mut RbStats) -> Option<(u
                     model.clear();
                 }
                 Op::PushBack(b) => {
-                    rb.push_back(*b);
-                    model.push_back(*b);
+                    rb.push_back(*b & 0x7F);
+                    model.push_back(*b & 0x7F);
                 }
             }
             if let Some(code) = check_state(&rb, &model, &mut last_cap) {
@@ -305,6 +320,7 @@ pub fn code_name(c: u8) -> &'static str {
         F_READER_ERR => "ring_reader_result",
         F_GET => "ring_get_mismatch",
         F_CAP_SHRANK => "ring_capacity_shrank",
+        F_FOREIGN => "ring_hands_never_written_bytes_to_reader",
         _ => "ring_unknown",
     }
 }
@@ -414,6 +430,7 @@ pub fn exec_decodebuf(case: &DCase, msg: &mut String, feats: &mut Vec<&'static s
                     pos: 0,
                     chunk: *chunk as usize,
                     eof_at: None,
+                    foreign: None,
                 };
                 if db.extend_from_reader(rd, *l as usize).is_err() {
                     bail!("decodebuf_reader", "op #{i}: extend_from_reader failed on a complete source");
